@@ -130,8 +130,9 @@ theorem c05_no_unicast_flag_ignored (s : Stack) (m : SDHeader) (a : Addr) (mc : 
 (plus all watch-all listeners): the ext listeners notified are determined by the registrations -/
 theorem c05_notify_targets (s : Stack) (b : Bool) (k : SvcKey) (a : Addr) :
     s.notifyService b k a =
-      (let s1 := s.watched.foldl (fun s p => if p.1.matchesService k.toService
-            then p.2.foldl (fun s l => if b then s.listenerOffered l k a else s.listenerStopped l k a) s else s) s
+      (let s0 : Stack := { s with storeLog := s.storeLog ++ [(b, k, a)] }
+       let s1 := s0.watched.foldl (fun s p => if p.1.matchesService k.toService
+            then p.2.foldl (fun s l => if b then s.listenerOffered l k a else s.listenerStopped l k a) s else s) s0
        s1.watchAll.foldl (fun s id => if b then s.listenerOffered (.ext id) k a else s.listenerStopped (.ext id) k a) s1) := by
   unfold notifyService; simp only []
 
